@@ -137,7 +137,7 @@ def build_archives(bdir, variant, extra_defs, log):
 
 
 WRAPS = ["malloc", "calloc", "realloc", "free", "strdup",
-         "readv", "writev", "poll", "fcntl", "close", "dup", "getsockopt",
+         "readv", "writev", "poll", "fcntl", "close", "dup", "getsockopt", "sendmsg", "recvmsg", "sendto",
          "_mpt_abort", "_ZdlPv", "_ZdlPvm"]
 
 
